@@ -1,8 +1,8 @@
 (* C04 — Register file: every line becomes exactly one element, first matching type wins. Statements only. *)
 From Coq Require Import String ZArith NArith List Bool Arith.
 From Coq Require Import Floats.SpecFloat.
-From Cfi Require Import Glue.Sx Py.PyStr Py.PyNum Py.PyBits Py.PyDate Model.Field Model.Line Model.Reader.
-From Cfi Require Import Proofs.ReaderProofs.
+From Cfi Require Import Glue.Sx Py.PyStr Py.PyNum Py.PyBits Py.PyDate Py.PyRe Model.Field Model.Line Model.Reader.
+From Cfi Require Import Proofs.ReaderProofs Proofs.ReProofs.
 Import ListNotations.
 
 (* reading any text content with any declared register list succeeds (fuel |content|+1 is never exhausted) *)
@@ -55,9 +55,39 @@ Theorem C04_data_local : forall rs i line,
 Proof. reflexivity. Qed.
 Print Assumptions C04_data_local.
 
+(* "identifier pattern found within the leading window": the identifier is a regular expression (r_pat) or a plain literal;
+   found = some stretch of the window line[:IDENTIFIER_DIGITS] is matched (M: the denotational semantics, Proofs/ReProofs.v);
+   for a literal that is substring search, which is the same thing *)
+Theorem C04_identifier_found : forall r p line, r_pat r = Some p ->
+  (reg_matches r line = true <->
+   exists i j, i <= List.length (firstn (r_digits r) line) /\ M (firstn (r_digits r) line) p i j).
+Proof. intros r p line Hp. unfold reg_matches. rewrite Hp. apply re_search_spec. Qed.
+Print Assumptions C04_identifier_found.
+
+Theorem C04_identifier_literal : forall r line, r_pat r = None ->
+  reg_matches r line = contains (r_ident r) (firstn (r_digits r) line) /\
+  reg_matches r line = re_search (re_lit (r_ident r)) (firstn (r_digits r) line).
+Proof. intros r line Hp. unfold reg_matches. rewrite Hp. split; [reflexivity|symmetry; apply re_search_lit]. Qed.
+Print Assumptions C04_identifier_literal.
+
+(* whatever lies beyond the window never influences the identifier test *)
+Theorem C04_identifier_window : forall r a b,
+  firstn (r_digits r) a = firstn (r_digits r) b -> reg_matches r a = reg_matches r b.
+Proof. intros r a b H. unfold reg_matches. rewrite H. reflexivity. Qed.
+Print Assumptions C04_identifier_window.
+
+Example C04_example_regex :
+  let rs := [ {| r_ident := s2l "UH"%string; r_digits := 4; r_fields := []; r_delim := None;
+                 r_pat := Some (RSeq RBol (RSeq (re_lit (s2l "UH"%string)) (RChr (CSpace false false)))) |};
+              {| r_ident := s2l "U"%string; r_digits := 4; r_fields := []; r_delim := None;
+                 r_pat := Some (RSeq (RChr (CRanges false [(85, 86)%N])) (re_plus (RChr (CDigit false false)))) |} ] in
+  option_map (map fst) (read_regfile true true Text 1 rs 40 (s2l "UH  1"%string ++ [NL] ++ s2l "xUH 2"%string ++ [NL] ++ s2l " V77"%string ++ [NL] ++ s2l "UHE"%string))
+  = Some [Some 0; None; Some 1; None].
+Proof. vm_compute. reflexivity. Qed.
+
 Example C04_example :
-  let rs := [ {| r_ident := s2l "AB"%string; r_digits := 2; r_fields := [ {| kind := KInt; size := 3; start := 2 |} ]; r_delim := None |};
-              {| r_ident := s2l "A"%string; r_digits := 2; r_fields := [ {| kind := KLit; size := 3; start := 2 |} ]; r_delim := None |} ] in
+  let rs := [ {| r_ident := s2l "AB"%string; r_digits := 2; r_fields := [ {| kind := KInt; size := 3; start := 2 |} ]; r_delim := None; r_pat := None |};
+              {| r_ident := s2l "A"%string; r_digits := 2; r_fields := [ {| kind := KLit; size := 3; start := 2 |} ]; r_delim := None; r_pat := None |} ] in
   option_map (map (to_elem Text rs)) (read_regfile true true Text 1 rs 40 (s2l "AB 12"%string ++ [NL] ++ s2l "xA yz"%string ++ [NL] ++ s2l "??"%string))
   = Some [ETyped 0 [VInt 12]; ETyped 1 [VStr (s2l "yz"%string)]; EDefault (Some (s2l "??"%string))].
 Proof. vm_compute. reflexivity. Qed.
